@@ -21,7 +21,11 @@ PROPS = {
              "distinct = distinct decoded choice sequences (64-bit hash), united over shards.",
         assumptions=[
             "the dense long-double reference (Gauss-Jordan / GEPP with partial pivoting) is accurate to 8 n 2^-64 |A^-1||A||x| componentwise",
-            "rounding bounds are first-order componentwise propagations with a safety factor 4 (stated next to each check); calibrated worst observed error/bound ratio 0.05 (dense inner solvers), 0.26 (GMRES inner solvers)",
+            "rounding bounds are first-order componentwise propagations with a safety factor 4 (stated next to each check); calibrated worst observed error/bound ratio 0.05 (dense inner solvers), 0.26 (GMRES inner solvers), "
+            "0.033 for |Z^T(b-Ax)| after project()/apply() over 1.04e6 cases (the inversion error of E = Z^T A Z enters through |L||U| of its pivoted LU, not through |E|)",
+            "schur_gmres: the premise 'exact inner solves' is checked per case: every inner solve must leave a relative residual <= tau = 1e-14 + 8 n u (measured in double with the same operator); "
+            "cases where an inner GMRES misses that (about 5%, one NaN in 160000: GMRES divides by a vanishing Hessenberg pivot when the Krylov space of a tiny matrix-free system is exhausted before "
+            "tol is reached) are counted and not asserted",
             "deflated solve: solvers that recompute the residual before returning (gmres, fgmres, lgmres) must report the true residual of the original system within "
             "gap = 16 u (iters+2) n^1.5 (||A|| (||x||+||x0||+||A^-1 f||) + ||f||)/||f||; for recurrence-updated residuals (cg, bicgstab, bicgstabl, idrs) the claim checked is "
             "true residual <= max(tol, reported)(1+1e-3) + gap (the drift of the recurrence itself is C01's subject; IDR(s) was seen to report 7e-11 at a true 1.2e-9)",
